@@ -575,6 +575,7 @@ def handle (j : Json) : Except String Json := do
     let cased ← (← j.getObjVal? "cased").getStr?
     let table ← match lang with
       | "cpp" => pure Generated.reserved_cpp | "python" => pure Generated.reserved_python | "matlab" => pure Generated.reserved_matlab
+      | "cpp_types" => pure Generated.reserved_cpp_types
       | l => throw s!"bad language {l}"
     pure (Json.mkObj [("ident", Json.str (Names.ident table suffix cased))])
   | "narrow" =>
@@ -610,6 +611,17 @@ def handle (j : Json) : Except String Json := do
       | _ => none
     let bad := (Rules.subterms t).filter fun s => !TypeRules.nodeOk canon s
     pure (Json.mkObj [("ok", Json.bool (TypeRules.typeOk canon t)), ("bad_nodes", jn bad.length)])
+  | "enum_rules" =>
+    -- validateEnums on one definition: "base": primitive name or null, "values": [[symbol, integer]...]
+    let base ← match j.getObjVal? "base" with
+      | .ok (.str b) => match primOfString b with
+        | some p => pure (some p)
+        | none => throw s!"unknown prim {b}"
+      | _ => pure none
+    let vals ← (← (← j.getObjVal? "values").getArr?).toList.mapM fun e => do
+      let a ← e.getArr?
+      pure ((← (a[0]?.getD Json.null).getStr?), (← (a[1]?.getD Json.null).getInt?))
+    pure (Json.mkObj [("ok", Json.bool (TypeRules.enumOk base vals))])
   | "nd_read" =>
     -- the NDJSON step reader on a sequence of lines: "steps": [[name, isStream]...], "lines": [name...] (line i carries value i)
     let steps ← (← (← j.getObjVal? "steps").getArr?).toList.mapM fun e => do
